@@ -70,6 +70,9 @@ pub enum UnmarshalError {
     /// Returned when data is encountered in padding between values. This is a sign of a corrupted message (or a bug in this library)
     #[error("Returned when data is encountered in padding between values. This is a sign of a corrupted message (or a bug in this library)")]
     PaddingContainedData,
+    /// A string or signature was not followed by its terminating nul byte
+    #[error("A string or signature was not followed by its terminating nul byte")]
+    MissingNulTerminator,
     /// A boolean did contain something other than 0 or 1
     #[error("A boolean did contain something other than 0 or 1")]
     InvalidBoolean,
